@@ -215,6 +215,12 @@ class PseudotrajCheck(Check):
 
     def generate(self, rng, tier):
         mol1, mol2 = self._gen_molspec(rng), self._gen_molspec(rng)
+        if rng.random() < 0.12:
+            # the workflow's rule run_pt: grid file -> PtWriter -> trajectory file(s) -> a reader in another stage
+            rows = self._gen_rows(rng, tier)
+            return {"kind": "ptwriter", "mol1": mol1, "mol2": mol2, "tasks": [rows], "cell": rng.choice([30.0, 250.0]),
+                    "out": rng.choice(["memory", "xtc", "xyzdir"]), "rng_init": rng.randrange(2 ** 32),
+                    "ops": [{"op": "fault", "fault": RngSeam.generate(rng)}] if rng.random() < 0.3 else []}
         n_tasks = rng.choice([1, 2, 2, 3])
         tasks = [self._gen_rows(rng, tier) for _ in range(n_tasks)]
         if rng.random() < 0.4 and n_tasks > 1:
@@ -239,7 +245,90 @@ class PseudotrajCheck(Check):
                 "dimensions": rng.choice([None, None, [30.0, 30.0, 30.0, 90.0, 90.0, 90.0]]), "ops": ops}
 
     # ------------------------------------------------------------------ execution
+    def _exec_ptwriter(self, sc):
+        import MDAnalysis as mda
+        from molgri.io import OneMoleculeReader, PtWriter
+        log = EventLog()
+        faults, probes = {}, {}
+        with World(rng_init=sc.get("rng_init", 0xC0FFEE)) as world:
+            d = world.make_scratch()
+            p1, p2 = molecule_path(sc["mol1"], d, "m1"), molecule_path(sc["mol2"], d, "m2")
+            with lib_call("OneMoleculeReader"):
+                u1 = OneMoleculeReader(p1).get_molecule()
+                u2 = OneMoleculeReader(p2).get_molecule()
+            ref1 = np.array(u1.atoms.positions, dtype=float)
+            ref2 = np.array(u2.atoms.positions, dtype=float)
+            m2 = np.array(u2.atoms.masses, dtype=float)
+            names = list(u1.atoms.names) + list(u2.atoms.names)
+            t = sc["tasks"][0]
+            if "grid" in t:
+                from molgri.space.fullgrid import FullGrid
+                with lib_call(f"FullGrid({t['grid']})"):
+                    g = FullGrid(t["grid"]["b"], t["grid"]["o"], t["grid"]["t"])
+                    rows = np.array(g.get_full_grid_as_array(), dtype=float)
+            else:
+                rows = np.array(t["rows"], dtype=float).reshape(-1, 7)
+            if len(rows) == 0:
+                return {"events": 0, "fingerprint": "empty", "faults": {}, "probes": {}, "sig": None, "nontrivial": False}
+            gpath = os.path.join(d, "full_array.npy")
+            np.save(gpath, rows)
+            for op in sc["ops"]:
+                if op["op"] == "fault":
+                    RngSeam.apply(op["fault"])
+                    faults[op["fault"]["kind"]] = faults.get(op["fault"]["kind"], 0) + 1
+            with lib_call("PtWriter(...)"):
+                w = PtWriter(p1, p2, cell_size_A=sc["cell"], path_grid=gpath)
+            exp = [np.vstack([ref1, place(ref2, m2, r[3:], r[:3])]) for r in rows]
+
+            def judge(pos, k, tol, what):
+                pos = np.asarray(pos, dtype=float)
+                if pos.shape != exp[k].shape:
+                    raise Violation("frame-shape", f"{what}: {pos.shape[0]} atoms, expected {exp[k].shape[0]}")
+                dev = float(np.abs(pos - exp[k]).max(initial=0))
+                if dev > tol * max(1.0, np.abs(exp[k]).max() / 100.0):
+                    raise Violation("frame-placement", f"{what}: deviates by {dev:.3g} A from the rigid placement of "
+                                                       f"grid row {k} {rows[k].tolist()}")
+
+            uni = w.pt_universe
+            if len(uni.trajectory) != len(rows):
+                raise Violation("frame-count", f"PtWriter universe has {len(uni.trajectory)} frames for {len(rows)} rows")
+            if list(uni.atoms.names) != names:
+                raise Violation("atom-order", f"PtWriter universe atoms {list(uni.atoms.names)} != {names}")
+            for k in range(len(rows)):
+                with lib_call(f"pt_universe.trajectory[{k}]"):
+                    uni.trajectory[k]
+                    pos = np.array(uni.atoms.positions)
+                judge(pos, k, 1e-4, f"PtWriter in-memory frame {k}")
+            checked = len(rows)
+            if sc["out"] == "xtc":
+                xtc, gro = os.path.join(d, "trajectory.xtc"), os.path.join(d, "structure.gro")
+                with lib_call("PtWriter.write_full_pt"):
+                    w.write_full_pt(xtc, gro)
+                back = mda.Universe(gro, xtc)
+                if len(back.trajectory) != len(rows):
+                    raise Violation("frame-count", f"written trajectory has {len(back.trajectory)} frames for "
+                                                   f"{len(rows)} rows")
+                for k, ts in enumerate(back.trajectory):
+                    judge(back.atoms.positions, k, 2e-2, f"frame {k} read back from the .xtc file")
+                probes["xtc_roundtrip"] = 1
+                checked += len(rows)
+            elif sc["out"] == "xyzdir":
+                paths = [os.path.join(d, f"{str(k).zfill(10)}.xyz") for k in range(len(rows))]
+                with lib_call("PtWriter.write_full_pt_in_directory"):
+                    w.write_full_pt_in_directory(paths, os.path.join(d, "structure.gro"))
+                for k, pth in enumerate(paths):
+                    judge(mda.Universe(pth).atoms.positions, k, 1e-3, f"single-frame file {os.path.basename(pth)}")
+                probes["xyz_directory_roundtrip"] = 1
+                checked += len(rows)
+            log.add("ptwriter", sc["out"], len(rows), digest_array(np.asarray(exp[-1])))
+        sig = ["ptwriter", sc["out"], sc["mol1"].get("kind", sc["mol1"].get("file")),
+               sc["mol2"].get("kind", sc["mol2"].get("file")), min(len(rows), 8)]
+        return {"events": log.n + checked, "fingerprint": log.digest(), "faults": faults, "probes": probes,
+                "sig": repr(sig), "nontrivial": checked >= 2 and sc["out"] != "memory", "inter": repr(sig[:2])}
+
     def execute(self, sc):
+        if sc.get("kind") == "ptwriter":
+            return self._exec_ptwriter(sc)
         from molgri.io import OneMoleculeReader
         from molgri.molecules.pts import Pseudotrajectory
         log = EventLog()
@@ -559,7 +648,10 @@ class AssignmentCheck(Check):
                   "include_outliers": rng.random() < 0.25, "cartesian_flag": rng.random() < 0.5,
                   "rng_init": rng.randrange(2 ** 32)}
         if rng.random() < 0.15:
-            return {"kind": "backassign", **common, "ops": []}
+            via_files = rng.random() < 0.5
+            if via_files and mol2.get("kind") == "planar":
+                via_files = False  # xtc keeps 0.01 A: a planar >3-atom molecule is not planar any more in the file
+            return {"kind": "backassign", **common, "via_files": via_files, "ops": []}
         radii = {"[0.2, 0.3, 0.4]": [2, 3, 4], "[0.15, 0.3]": [1.5, 3], "linspace(0.2, 0.6, 4)": [2, 10 / 3, 14 / 3, 6],
                  "[0.2, 0.25, 0.5]": [2, 2.5, 5]}[t]
         rmax = radii[-1] + (radii[-1] - radii[-2]) / 2
@@ -617,8 +709,20 @@ class AssignmentCheck(Check):
             m2 = np.array(u2.atoms.masses, dtype=float)
             if sc["kind"] == "backassign":
                 from molgri.molecules.pts import Pseudotrajectory
-                with lib_call("Pseudotrajectory(grid).get_pt_as_universe"):
-                    traj = Pseudotrajectory(u1, u2, full_array).get_pt_as_universe()
+                if sc.get("via_files"):
+                    # rule run_pt then assignment in a later stage: grid file -> PtWriter -> .gro/.xtc -> Universe
+                    import MDAnalysis as mda
+                    from molgri.io import PtWriter
+                    gpath = os.path.join(d, "full_array.npy")
+                    np.save(gpath, full_array)
+                    with lib_call("PtWriter(...).write_full_pt"):
+                        PtWriter(molecule_path(sc["mol1"], d, "m1"), molecule_path(sc["mol2"], d, "m2"), 60.0,
+                                 gpath).write_full_pt(os.path.join(d, "t.xtc"), os.path.join(d, "s.gro"))
+                    traj = mda.Universe(os.path.join(d, "s.gro"), os.path.join(d, "t.xtc"))
+                    probes["back_assignment_through_xtc_files"] = 1
+                else:
+                    with lib_call("Pseudotrajectory(grid).get_pt_as_universe"):
+                        traj = Pseudotrajectory(u1, u2, full_array).get_pt_as_universe()
                 frames = full_array
                 shift = np.zeros(3)
                 stop = None
